@@ -1,3 +1,3 @@
-From TSG Require Import Proofs.SLF2Store Proofs.SLF2Jok.
-Set Printing Width 300.
-Check K_J. Check J_K. Check n_push_args. Check evJ. Check n_sweep_step. Check J_same. Check storeK_forcing. Check jk_eval_as_gnode. Check jk_eval_lstmt. Check jk_sweep_step. Check sweep_step. Check jk_force_thunk. Check cellK. Check bad_scope. Check J_set_cell. Check jk_lexec_stmt. Check jk_lexec_stanza.
+From TSG Require Import Proofs.SL2Stmt Proofs.SLF2Expr.
+Set Printing Width 250.
+About rel_step2. About endpoint_sim2. About attrs_all_sim2. About print_arg_sim2. About arg_ok2. About arg_ok2_mono. About trav_fail2. About pfr2_lexec_attr. About pfr2_leval. About unscoped_add_fail2. About epost2_K. About K_step0. About wstatic_ext0. About Renv2_static.
